@@ -512,7 +512,7 @@ def c10_h(ctx):
     except Unsupported as e:
         ctx.undecided('log likelihood outside the differentiable fragment: {}'.format(e))
     try:
-        G = sd.convert(exg.term(gs[0].value), alg, leaf)
+        G = sd.convert(exg.term(gs[0].value), alg, sd.opaque_leaf(leaf))
         ok = alg.same(G, dF)
         why = 'gradient formula {} is not d/dx of {}'.format(src(gs[0].value), src(fs[0].value))
     except sd.Clipped as e:
@@ -681,7 +681,7 @@ def c10_j(ctx):
             ctx.undecided('fast-path {} formula not found'.format(label))
         try:
             dF = [alg.D(sd.convert(_scalarise(a), alg, leaf)) for a in fa]
-            G = [sd.convert(_scalarise(a), alg, leaf) for a in ga]
+            G = [sd.convert(_scalarise(a), alg, sd.opaque_leaf(leaf)) for a in ga]
         except Unsupported as e:
             ctx.undecided('fast-path {} outside the differentiable fragment: {}'.format(label, e))
         ok = all(any(alg.same(g, d) for d in dF) for g in G) and \
